@@ -1,6 +1,8 @@
 package mem2reg
 
 import (
+	"sort"
+
 	"github.com/gogpu/naga/ir"
 )
 
@@ -254,7 +256,14 @@ func rewriteBlock(ctx *promotionContext, blk *[]ir.Statement, candidates map[uin
 // without explicit Init see zero per the WGSL specification).
 func initialValues(ctx *promotionContext, candidates map[uint32]struct{}) map[uint32]ir.ExpressionHandle {
 	out := make(map[uint32]ir.ExpressionHandle, len(candidates))
+	// Iterate in ascending order: the loop appends expressions, and the
+	// output must not depend on map iteration order.
+	ordered := make([]uint32, 0, len(candidates))
 	for v := range candidates {
+		ordered = append(ordered, v)
+	}
+	sort.Slice(ordered, func(i, j int) bool { return ordered[i] < ordered[j] })
+	for _, v := range ordered {
 		lv := &ctx.fn.LocalVars[v]
 		if lv.Init != nil {
 			out[v] = *lv.Init
